@@ -7,7 +7,7 @@ use std::panic::{catch_unwind, AssertUnwindSafe};
 pub const OPS: &[&str] = &[
     "get_resolution", "deserialize", "serialize", "roundtrip", "cell_to_parent", "cell_to_children",
     "get_res0_cells", "is_first_child", "get_stride", "get_num_cells", "get_num_children", "uncompact",
-    "compact_cover", "compact_max", "compact_total", "uncompact_total", "order", "order_children", "reference", "hex", "hex_parse",
+    "compact_cover", "compact_max", "compact_total", "uncompact_total", "order", "order_children", "reference", "purity", "hex", "hex_parse",
     "lonlat_to_cell", "cell_to_lonlat", "cell_to_boundary", "cell_area",
 ];
 
@@ -397,6 +397,94 @@ pub fn run_op(op: &str, a: &[String]) -> Result<(), String> {
             }
             Ok(())
         }
+        "purity" => {
+            // C13 (bounded stand-in): the result of a public call is the same bit pattern whether it is the first
+            // call of a fresh thread, follows other calls in the same thread (two different orders), or runs in
+            // a fresh thread after other threads have used the library
+            let seed = pu64(&a[0]);
+            let n = pu64(&a[1]) as usize;
+            let mut rng = Rng::new(seed);
+            #[derive(Clone)]
+            enum Call { L2C(f64, f64, i32), C2L(u64), C2B(u64, i32), NC(i32), AR(i32) }
+            fn run(c: &Call) -> String {
+                let b = |x: f64| format!("{:016x}", x.to_bits());
+                match c {
+                    Call::L2C(lo, la, r) => format!("{:?}", a5::lonlat_to_cell(a5::LonLat::new(*lo, *la), *r)),
+                    Call::C2L(x) => match a5::cell_to_lonlat(*x) { Ok(p) => format!("{} {}", b(p.longitude()), b(p.latitude())), Err(e) => e },
+                    Call::C2B(x, seg) => match a5::cell_to_boundary(*x, Some(a5::core::cell::CellToBoundaryOptions { closed_ring: true, segments: Some(*seg) })) {
+                        Ok(v) => v.iter().map(|p| format!("{}{}", b(p.longitude()), b(p.latitude()))).collect::<Vec<_>>().join(","),
+                        Err(e) => e,
+                    },
+                    Call::NC(r) => format!("{}", a5::get_num_cells(*r)),
+                    Call::AR(r) => b(a5::cell_area(*r)),
+                }
+            }
+            let mut calls: Vec<Call> = vec![];
+            for _ in 0..n {
+                let lon = (rng.below(3_600_000) as f64) / 10_000.0 - 180.0;
+                let lat = (rng.below(1_800_001) as f64) / 10_000.0 - 90.0;
+                let r = [1, 3, 5, 9, 20][rng.below(5) as usize];
+                calls.push(Call::L2C(lon, lat, r));
+                if let Ok(x) = a5::lonlat_to_cell(a5::LonLat::new(lon, lat), r.min(6)) {
+                    calls.push(Call::C2L(x));
+                    calls.push(Call::C2B(x, 1 + rng.below(3) as i32));
+                }
+            }
+            // points straddling the seams between neighbouring faces (where nearest-face selection is delicate)
+            {
+                use a5::core::coordinate_transforms::{to_cartesian, to_lon_lat, to_spherical};
+                let origins = a5::core::origin::get_origins();
+                for i in 0..origins.len() {
+                    for j in 0..origins.len() {
+                        if i == j {
+                            continue;
+                        }
+                        let p = to_cartesian(origins[i].axis);
+                        let q = to_cartesian(origins[j].axis);
+                        let dot = p.x() * q.x() + p.y() * q.y() + p.z() * q.z();
+                        if dot < 0.3 || dot > 0.6 {
+                            continue; // neighbours are 63.4 degrees apart (cos = 0.447)
+                        }
+                        for k in -6i32..=6 {
+                            let t = 0.5 + (k as f64) * 0.00008;
+                            let (x, y, z) = (p.x() * (1.0 - t) + q.x() * t, p.y() * (1.0 - t) + q.y() * t, p.z() * (1.0 - t) + q.z() * t);
+                            let nrm = (x * x + y * y + z * z).sqrt();
+                            let ll = to_lon_lat(to_spherical(a5::coordinate_systems::Cartesian::new(x / nrm, y / nrm, z / nrm)));
+                            calls.push(Call::L2C(ll.longitude(), ll.latitude(), 20));
+                        }
+                    }
+                }
+            }
+            for r in [19, 2, 27, 3, 0, 29, 12] {
+                calls.push(Call::NC(r));
+                calls.push(Call::AR(r));
+            }
+            let alone: Vec<String> = calls.iter().map(|c| { let c = c.clone(); std::thread::spawn(move || run(&c)).join().unwrap_or("panic".into()) }).collect();
+            let order1: Vec<usize> = (0..calls.len()).collect();
+            let mut order2 = order1.clone();
+            order2.reverse();
+            let mut order3 = order1.clone();
+            shuffle(&mut order3, &mut rng);
+            for (name, ord) in [("in call order", order1), ("in reverse order", order2), ("in shuffled order", order3)] {
+                let cs = calls.clone();
+                let o = ord.clone();
+                let got: Vec<(usize, String)> = std::thread::spawn(move || o.iter().map(|i| (*i, run(&cs[*i]))).collect()).join().map_err(|_| "panic in sequence".to_string())?;
+                for (i, g) in got {
+                    if g != alone[i] {
+                        return Err(format!("call #{} gives a different answer after other calls in the same thread ({}) than as the first call of a fresh thread: {} vs {}", i, name, &g[..g.len().min(60)], &alone[i][..alone[i].len().min(60)]));
+                    }
+                }
+            }
+            // fresh threads again, after the threads above have run (process-wide state)
+            for (i, c) in calls.iter().enumerate() {
+                let c = c.clone();
+                let g = std::thread::spawn(move || run(&c)).join().unwrap_or("panic".into());
+                if g != alone[i] {
+                    return Err(format!("call #{} in a fresh thread gives a different answer after other threads used the library", i));
+                }
+            }
+            Ok(())
+        }
         "reference" => {
             // one line of the frozen reference dump (contracts/reference/ref_dump_v0.6.2.txt, spaces as '~'):
             // the real code must reproduce it
@@ -736,6 +824,18 @@ pub fn generate(op: &str, rng: &mut Rng, budget: u64, f: &mut dyn FnMut(Vec<Stri
             f(vec![]);
         }
         "get_num_cells" | "cell_area" => {
+            // no particular order of resolutions may be assumed by the library: descending, random jumps, ascending
+            for r in (-5..=40).rev() {
+                if !f(vec![r.to_string()]) {
+                    return;
+                }
+            }
+            for _ in 0..200 {
+                let r = rng.below(36) as i32 - 3;
+                if !f(vec![r.to_string()]) {
+                    return;
+                }
+            }
             for r in -5..=40 {
                 if !f(vec![r.to_string()]) {
                     return;
@@ -962,6 +1062,13 @@ pub fn generate(op: &str, rng: &mut Rng, budget: u64, f: &mut dyn FnMut(Vec<Stri
                 }
                 shuffle(&mut l, rng);
                 if !f(vec![flist(&l)]) {
+                    return;
+                }
+            }
+        }
+        "purity" => {
+            for k in 0..(1 + budget / 400) {
+                if !f(vec![(rng.next() % 1_000_000).to_string(), (3000 + 1000 * k).to_string()]) {
                     return;
                 }
             }
